@@ -257,6 +257,13 @@ func (e *Exec) step(fn *ssa.Function, fc *FuncContract, st *State, ins ssa.Instr
 		return true, nil
 
 	case *ssa.MakeMap:
+		if x.Reserve != nil && e.eng.allocHook != nil {
+			if _, isC := x.Reserve.(*ssa.Const); !isC {
+				// a size hint taken from the input reserves memory for that many entries up front
+				rv := e.toIdx(st, e.val(st, x.Reserve))
+				e.eng.allocHook(e, st, x, rv, rv)
+			}
+		}
 		ref := e.allocRef(st)
 		mt := x.Type().Underlying().(*types.Map)
 		if x.Reserve != nil {
